@@ -76,4 +76,41 @@ def _args_from_input(rec):
     return {"violated": got != want, "observed": ["%s: decoded %r, inspect.signature %r" % (src, got, want)], "call": src}
 
 
-REPLAYERS = {"blocks.ToArgs.found_index": _found_index, "flags.": _flag_word, "blocks._instrsize": _instrsize, "args.args_from_input": _args_from_input}
+RELAX_SHAPES = {
+    "back+fwd-abs": [[("pad", 0), ("jump", 1, False)], [("pad", 1), ("jump", 0, False)], [("pad", 2)]],
+    "fwd-rel+back-abs": [[("pad", 0), ("jump", 2, True)], [("pad", 1), ("jump", 0, False)], [("pad", 2)]],
+    "two-fwd": [[("jump", 2, False), ("pad", 0), ("jump", 1, True)], [("pad", 1)], [("pad", 2)]],
+    "loop-in-if": [[("jump", 2, False), ("pad", 0)], [("pad", 1), ("jump", 1, False), ("jump", 2, True)], [("pad", 2)]],
+}
+
+
+def _relaxation(rec):
+    """hand-built CodeData of the harness's jump-graph shape with the counter-model's NOP paddings; oracle: dis on the emitted code"""
+    import re
+    from code_data import CodeData, Constant, Instruction, Jump
+    from . import props2
+    props2._load_more()
+    from .props4 import c03_check, mk
+    m = re.search(r"fixpoint\[([^\]]+)\]", rec["obligation"])
+    shape = RELAX_SHAPES.get(m.group(1)) if m else None
+    inp = rec.get("inputs") or {}
+    if shape is None:
+        return {"violated": None, "note": "unknown shape"}
+    pads = [max(1, int(inp.get("pad%d" % k, 1))) for k in range(3)]
+    if sum(pads) > 400000:
+        return {"violated": None, "note": "counter-model too large to materialise (%r)" % pads}
+    blocks = []
+    for bi, b in enumerate(shape):
+        row = []
+        for it in b:
+            if it[0] == "pad":
+                row += [Instruction("NOP", line_number=1)] * pads[it[1]]
+            else:
+                row.append(Instruction("JUMP_FORWARD" if it[2] else "JUMP_ABSOLUTE", Jump(it[1], it[2]), line_number=1))
+        blocks.append(row)
+    blocks[-1] += [Instruction("LOAD_CONST", Constant(None), line_number=1), Instruction("RETURN_VALUE", line_number=1)]
+    msgs = c03_check(mk(blocks))
+    return {"violated": bool(msgs), "observed": msgs, "call": "to_code() of a %s jump graph with NOP paddings %r" % (m.group(1), pads)}
+
+
+REPLAYERS = {"blocks.relaxation_loop": _relaxation, "blocks.ToArgs.found_index": _found_index, "flags.": _flag_word, "blocks._instrsize": _instrsize, "args.args_from_input": _args_from_input}
